@@ -185,7 +185,7 @@ Definition alloc_post (c : cfg) (s : st) (idx fam n : N) (d : list N) (r : ares 
   calls_ok c n cs = true /\ s_calls s <= s_calls s' /\ s_err s' = s_err s /\
   match a with
   | ANull => (any_failed cs = true \/ too_big c n = true) /\ s_blocks s' = s_blocks s /\ s_table s' = s_table s /\
-             (too_big c n = true -> cs = [] /\ s' = s)
+             (too_big c n = true -> cs = [] /\ s' = s) /\ balanced cs = true
   | ABlock b => any_failed cs = false /\ s_blocks s' = b :: s_blocks s /\ s_table s' = idx :: s_table s /\ new_block_ok c s s' idx fam n d b
   | AErr => False
   end.
@@ -237,7 +237,7 @@ Definition realloc_post (c : cfg) (s : st) (idx : N) (ob : option block) (n : N)
   match a with
   | ANull => (any_failed cs = true \/ too_big c n = true) /\ s_blocks s' = s_blocks s /\
              (s_table s' = s_table s \/ exists b, ob = Some b /\ s_table s' = b_id b :: table') /\
-             (too_big c n = true -> cs = [] /\ s' = s)
+             (too_big c n = true -> cs = [] /\ s' = s) /\ balanced cs = true
   | ABlock b => any_failed cs = false /\ s_blocks s' = b :: others /\ s_table s' = idx :: table' /\
                 new_block_ok c s s' idx 0 n (realloc_data old_data n) b
   | AErr => False
